@@ -10,7 +10,12 @@ from ..common import Report, pmap
 from ..forcedrv import space_scenario
 
 FAMILY = r"^(obs\.|run\.crashed|setup\.valid)"
-DRIVERS = {"force-space": ("harness.forcedrv", "force_trace", "ForceTrace", FAMILY)}
+def exhaustive_scenario(rng):
+    return space_scenario(rng, exhaustive=True)
+
+
+DRIVERS = {"force-space": ("harness.forcedrv", "force_trace", "ForceTrace", FAMILY),
+           "force-space-exhaustive": ("harness.forcedrv", "force_trace", "ForceTrace", FAMILY)}
 
 
 def run(tier, seed):
@@ -22,11 +27,17 @@ def run(tier, seed):
     scs = [space_scenario(rng) for _ in range(2500 if tier == "thorough" else 500)]
     traces = pmap("harness.forcedrv", "force_trace", scs)
     rep.add_tv("force-space", "ForceTrace", scs, traces, tlc.validate_traces("ForceTrace", traces, batch_events=400), family=FAMILY)
+    # small-scope exhaustive: every quarter-cell point of the valid region x every depth of the ladder, on a few grids
+    re_ = random.Random(seed + 41)
+    xs = [space_scenario(re_, exhaustive=True) for _ in range(12 if tier == "thorough" else 3)]
+    xt = pmap("harness.forcedrv", "force_trace", xs)
+    rep.add_tv("force-space-exhaustive", "ForceTrace", xs, xt, tlc.validate_traces("ForceTrace", xt, batch_events=4, timeout=1800), family=FAMILY)
+    scs = scs + xs
     rep.nontrivial = sum(len(set(zip(s["xq"], s["yq"], s["z"]))) for s in scs)
     rep.extra["probe_values_compared"] = sum(len(s["xq"]) * 11 * 2 for s in scs)
     rep.rule = ("8 x 7 global grids with random land, two bathymetry values, 2-3 levels, three stretching curves (level spacings 10-60 m, weights in thirds and sixths as well as halves and quarters), random legal sub-rectangles (also counted "
                 "from the upper end), float or int16-packed storage, forward/reversed; ~40 quarter-cell probes per grid incl. cell "
-                "edges/corners and depths above, at, between, below the levels; non-trivial = distinct probes (position, depth) summed over grids")
+                "edges/corners and depths above, at, between, below the levels; plus, on a few grids, every quarter-cell point of the valid region x a 15-step depth ladder; non-trivial = distinct probes (position, depth) summed over grids")
     rep.assumptions = ["node values multiples of 24/1024 m/s with a mixed-radix formula (a wrong index or weight changes the integer)",
                        "at exact cell edges either neighbouring own cell is accepted (EdgeCell, DESIGN 3c)"]
     return rep
